@@ -63,6 +63,9 @@ type chanSite struct {
 func ownerOf(c *chk.Ctx, v ssa.Value) (owners map[string]bool, other bool) {
 	owners = map[string]bool{}
 	stop := func(x ssa.Value) bool {
+		if p, ok := x.(*ssa.Parameter); ok && startParamOwner(c, p) != "" {
+			return true
+		}
 		return chk.LoadsField(x, c.M.SCh) || chk.LoadsField(x, c.M.CCh)
 	}
 	for _, s := range c.P.SourcesStop(v, stop) {
@@ -97,10 +100,11 @@ func startParamOwner(c *chk.Ctx, p *ssa.Parameter) string {
 		o string
 	}{{c.M.SCh, "server"}, {c.M.CCh, "client"}} {
 		for _, st := range c.P.FieldStores(f.v) {
-			if st.Val == ssa.Value(p) {
-				return f.o
+			v := ir.NormCell(st.Val)
+			if ci, ok := v.(*ssa.ChangeInterface); ok {
+				v = ir.NormCell(ci.X)
 			}
-			if ci, ok := st.Val.(*ssa.ChangeInterface); ok && ci.X == ssa.Value(p) {
+			if v == ssa.Value(p) {
 				return f.o
 			}
 		}
@@ -334,11 +338,9 @@ func ruleOneReceiver(c *chk.Ctx) {
 	count := map[string]int{}
 	for _, s := range sites {
 		owner := ""
-		if n := ir.RecvNamed(s.fn); n != nil {
-			if n == c.M.Server {
-				owner = "server"
-			} else if n == c.M.Client {
-				owner = "client"
+		if len(s.owners) == 1 && !s.other {
+			for o := range s.owners {
+				owner = o
 			}
 		}
 		if owner == "" {
@@ -718,4 +720,38 @@ func ruleBareObject(c *chk.Ctx) {
 			c.Undecided("TABLE.bare", f, "bare object iff single non-batch", f.Pos(), "no direct return of the element encoder's result found")
 		}
 	}
+}
+
+
+// readerOf resolves the owner's reader: its single Recv site (found by the
+// provenance of the channel value, not by where the call sits) and the reader
+// function, i.e. the owner's method from which that site is reached (the
+// function of the site itself, or the method that calls the private helper
+// holding it).
+func readerOf(c *chk.Ctx, owner string) (*ssa.Function, *chanSite) {
+	var site *chanSite
+	for _, s := range chanSites(c, "Recv") {
+		s := s
+		if len(s.owners) == 1 && s.owners[owner] && !s.other {
+			if site != nil {
+				return nil, nil
+			}
+			site = &s
+		}
+	}
+	if site == nil {
+		return nil, nil
+	}
+	f := site.fn
+	for i := 0; i < 4 && ir.RecvNamed(f) != ownerType(c, owner); i++ {
+		cs, ok := c.P.SoleCaller(f)
+		if !ok {
+			return nil, site
+		}
+		f = cs.Caller
+	}
+	if ir.RecvNamed(f) != ownerType(c, owner) {
+		return nil, site
+	}
+	return f, site
 }
